@@ -41,10 +41,11 @@ _LOOP = {
     "C01": (["Redress.Props.C01"], ["Redress/Audit/C01.lean"]),
     "C02": (["Redress.Props.C02"], ["Redress/Audit/C02.lean"]),
     "C03": (["Redress.Props.C03"], ["Redress/Audit/C03.lean"]),
-    "C04": (["Redress.Props.C04", "Redress.Props.C04NR"], ["Redress/Audit/C04.lean", "Redress/Audit/C04NR.lean"]),
+    "C04": (["Redress.Props.C04", "Redress.Props.C04NR", "Redress.Props.C04Stop"],
+            ["Redress/Audit/C04.lean", "Redress/Audit/C04NR.lean", "Redress/Audit/C04Stop.lean"]),
     "C05": (["Redress.Props.C05", "Redress.Props.C05Sig"], ["Redress/Audit/C05.lean", "Redress/Audit/C05Sig.lean"]),
     "C08": (["Redress.Props.C08"], ["Redress/Audit/C08.lean"]),
-    "C09": (["Redress.Props.C09"], ["Redress/Audit/C09.lean"]),
+    "C09": (["Redress.Props.C09", "Redress.Props.C09Once"], ["Redress/Audit/C09.lean", "Redress/Audit/C09Once.lean"]),
     "C11": (["Redress.Props.C11", "Redress.Props.C11NR", "Redress.Props.C11H"],
             ["Redress/Audit/C11.lean", "Redress/Audit/C11NR.lean", "Redress/Audit/C11H.lean"]),
     "C12": (["Redress.Props.C12", "Redress.Props.C12Fwd", "Redress.Generated.Forwarding"],
@@ -52,10 +53,10 @@ _LOOP = {
     "C13": (["Redress.Props.C13"], ["Redress/Audit/C13.lean"]),
     "C14": (["Redress.Props.C14"], ["Redress/Audit/C14.lean"]),
     "C15": (["Redress.Props.C15"], ["Redress/Audit/C15.lean"]),
-    "C16": (["Redress.Props.C16"], ["Redress/Audit/C16.lean"]),
+    "C16": (["Redress.Props.C16", "Redress.Props.C16Cut"], ["Redress/Audit/C16.lean", "Redress/Audit/C16Cut.lean"]),
 }
 _LOOP_PARTIAL = {
-    "C04": "the traceback conjunct cannot be expressed in the model; it is checked on the implementation by the harness (tb_ok). Entries with a retry loop: Props/C04; a Policy without a retry component (single attempt): Props/C04NR",
+    "C04": "the traceback conjunct cannot be expressed in the model; it is checked on the implementation by the harness (tb_ok). Entries with a retry loop: Props/C04; a Policy without a retry component (single attempt): Props/C04NR; which rule the error's stop_reason names: Props/C04Stop (corollary of C14's terminal_tags, needs a metric or log hook in the configuration to be visible in a log)",
     "C12": "call()/execute() agreement is proved for Retry (call_execute_agree), for a Policy with a retry component "
            "(pcall_pexecute_agree) and for the retry-less Policy (pcall_pexecute_agree_nr), each under explicit "
            "hypotheses on the run's own log: no attempt hooks (retry-less: no end hook), the abort predicate does not "
